@@ -31,7 +31,7 @@ func c07Root(t *rapid.T) string {
 		segs = append(segs, rapid.SampledFrom([]string{"l1", "l2", "victim", "out", "a b", "é", "."}).Draw(t, fmt.Sprintf("d%d", i)))
 	}
 	s := strings.Join(segs, "/")
-	switch rapid.IntRange(0, 7).Draw(t, "form") {
+	switch rapid.IntRange(0, 11).Draw(t, "form") {
 	case 0:
 		s = "/" + s
 	case 1:
@@ -40,6 +40,14 @@ func c07Root(t *rapid.T) string {
 		s = " " + s + " "
 	case 3:
 		s = strings.ReplaceAll(s, "/", "//")
+	case 4: // the other slash flavour in front, behind, or mixed in
+		s = "\\" + s
+	case 5:
+		s = "\\" + s + "\\"
+	case 6:
+		s = "/\\" + s
+	case 7:
+		s = "\\/" + s
 	}
 	return s
 }
